@@ -131,31 +131,27 @@ def readCoefs : Nat → Prog (List Int)
     let cs ← readCoefs n
     pure (c :: cs)
 
-/-- one of FN_ZERO, FN_DIFF0..3, FN_QLPC on channel `st.chan` -/
-def blockCmd (h : Hdr) (convert : Bool) (cmd : Nat) (st : St) : Prog St := do
-  let cs := st.chans.getD st.chan default
+/-- the body of one block command: the new contents of `cbuffer` before the running-mean update -/
+def decodeBlock (h : Hdr) (cmd resn : Nat) (coff : Int) (bs : Nat) (buf : List Int) : Prog (List Int) :=
   let nw := h.nwrap
-  let bs := st.bs
-  let resn ← if cmd ≠ FN_ZERO then uvar ENERGYSIZE else pure 0
-  let coff := coffset h st.shift cs.off
-  let hist := (slice cs.buf 0 nw).reverse
-  let buf1 ←
-    if cmd = FN_ZERO then pure (setSlice cs.buf nw (List.replicate bs 0))
-    else if cmd = FN_DIFF0 then do
-      let acc ← resLoop resn (h.nmean = 0) (predDiff 0 coff) (fun _ => true) bs hist
-      pure (setSlice cs.buf 0 acc.reverse)
-    else if cmd = FN_DIFF1 then do
-      let acc ← resLoop resn true (predDiff 1 coff) (fun _ => true) bs hist
-      pure (setSlice cs.buf 0 acc.reverse)
-    else if cmd = FN_DIFF2 then do
-      let acc ← resLoop resn true (predDiff 2 coff) (fun _ => true) bs hist
-      pure (setSlice cs.buf 0 acc.reverse)
-    else if cmd = FN_DIFF3 then do
-      let acc ← resLoop resn true (predDiff 3 coff) (fun _ => true) bs hist
-      pure (setSlice cs.buf 0 acc.reverse)
-    else do -- FN_QLPC
-      let nlpc ← uvar LPCQSIZE
-      if nlpc > h.maxnlpc then failWith (.unsupported "nlpc > maxnlpc (IndexError)")
+  let hist := (slice buf 0 nw).reverse
+  if cmd = FN_ZERO then pure (setSlice buf nw (List.replicate bs 0))
+  else if cmd = FN_DIFF0 then do
+    let acc ← resLoop resn (h.nmean = 0) (predDiff 0 coff) (fun _ => true) bs hist
+    pure (setSlice buf 0 acc.reverse)
+  else if cmd = FN_DIFF1 then do
+    let acc ← resLoop resn true (predDiff 1 coff) (fun _ => true) bs hist
+    pure (setSlice buf 0 acc.reverse)
+  else if cmd = FN_DIFF2 then do
+    let acc ← resLoop resn true (predDiff 2 coff) (fun _ => true) bs hist
+    pure (setSlice buf 0 acc.reverse)
+  else if cmd = FN_DIFF3 then do
+    let acc ← resLoop resn true (predDiff 3 coff) (fun _ => true) bs hist
+    pure (setSlice buf 0 acc.reverse)
+  else do -- FN_QLPC
+    let nlpc ← uvar LPCQSIZE
+    if nlpc > h.maxnlpc then failWith (.unsupported "nlpc > maxnlpc (IndexError)")
+    else do
       let coefs ← readCoefs nlpc
       check (fits32 coff)
       -- cbuffer[nwrap - nlpc : nwrap] -= coffset
@@ -166,23 +162,34 @@ def blockCmd (h : Hdr) (convert : Bool) (cmd : Nat) (st : St) : Prog St := do
       -- if coffset: cbuffer[nwrap : blocksize + nwrap] += coffset
       let acc' := if coff ≠ 0 then (acc.take bs).map (· + coff) ++ acc.drop bs else acc
       check ((acc'.take bs).all fits32)
-      pure (setSlice cs.buf 0 acc'.reverse)
-  -- running mean
-  let off1 ←
-    if h.nmean > 0 then do
-      let sum : Int := (if h.version < 2 then 0 else ((bs / 2 : Nat) : Int)) + (slice buf1 nw (nw + bs)).sum
-      let off' := setSlice cs.off 0 (slice cs.off 1 h.nmean)
-      let m := c99div sum bs
-      check (fits32 m)
-      let m' := if h.version ≥ 2 then m <<< st.shift else m
-      check (fits32 m' && decide (st.shift < 32))
-      pure (off'.set (h.nmean - 1) m')
-    else pure cs.off
+      pure (setSlice buf 0 acc'.reverse)
+
+/-- new `offset[chan]` -/
+def meanUpdate (h : Hdr) (bs shift : Nat) (off buf1 : List Int) : List Int :=
+  if h.nmean > 0 then
+    let sum : Int := (if h.version < 2 then 0 else ((bs / 2 : Nat) : Int)) + (slice buf1 h.nwrap (h.nwrap + bs)).sum
+    let off' := setSlice off 0 (slice off 1 h.nmean)
+    let m := c99div sum bs
+    let m' := if h.version ≥ 2 then m <<< shift else m
+    off'.set (h.nmean - 1) m'
+  else off
+
+def meanOk (h : Hdr) (bs shift : Nat) (buf1 : List Int) : Bool :=
+  if h.nmean > 0 then
+    let sum : Int := (if h.version < 2 then 0 else ((bs / 2 : Nat) : Int)) + (slice buf1 h.nwrap (h.nwrap + bs)).sum
+    let m := c99div sum bs
+    fits32 m && fits32 (if h.version ≥ 2 then m <<< shift else m) && decide (shift < 32)
+  else true
+
+/-- wrap, `fix_bitshift`, store, and (after the last channel) interleave into the output -/
+def finishBlock (h : Hdr) (convert : Bool) (st : St) (off : List Int) (buf1 : List Int) : St :=
+  let nw := h.nwrap
+  let bs := st.bs
+  let off1 := meanUpdate h bs st.shift off buf1
   -- cbuffer[:nwrap] = cbuffer[blocksize : blocksize + nwrap]
   let buf2 := setSlice buf1 0 (slice buf1 bs (bs + nw))
   -- fix_bitshift(cbuffer[nwrap:], blocksize, bitshift, ftype)
   let blk := slice buf2 nw (nw + bs)
-  check (blk.all (fixOk h.ftype st.shift))
   let buf3 :=
     if h.ftype = TYPE_AU1 ∨ h.ftype = TYPE_AU2 then setSlice buf2 nw (blk.map (fixSample h.ftype st.shift))
     else if st.shift ≠ 0 then buf2.take nw ++ (buf2.drop nw).map (fun (v : Int) => v <<< st.shift)
@@ -190,10 +197,20 @@ def blockCmd (h : Hdr) (convert : Bool) (cmd : Nat) (st : St) : Prog St := do
   let chans := st.chans.set st.chan ⟨buf3, off1⟩
   if st.chan + 1 = h.nchan then
     let rows := chans.map (fun c => slice c.buf nw (nw + bs))
-    pure { st with chans := chans, chan := (st.chan + 1) % h.nchan,
-                   out := st.out ++ (interleave bs rows).map (toPcm convert h.ftype) }
+    { st with chans := chans, chan := (st.chan + 1) % h.nchan,
+              out := st.out ++ (interleave bs rows).map (toPcm convert h.ftype) }
   else
-    pure { st with chans := chans, chan := (st.chan + 1) % h.nchan }
+    { st with chans := chans, chan := (st.chan + 1) % h.nchan }
+
+/-- one of FN_ZERO, FN_DIFF0..3, FN_QLPC on channel `st.chan` -/
+def blockCmd (h : Hdr) (convert : Bool) (cmd : Nat) (st : St) : Prog St := do
+  let cs := st.chans.getD st.chan default
+  let resn ← if cmd ≠ FN_ZERO then uvar ENERGYSIZE else pure 0
+  let coff := coffset h st.shift cs.off
+  let buf1 ← decodeBlock h cmd resn coff st.bs cs.buf
+  check (meanOk h st.bs st.shift buf1)
+  check ((slice buf1 h.nwrap (h.nwrap + st.bs)).all (fixOk h.ftype st.shift))
+  pure (finishBlock h convert st cs.off buf1)
 
 /-- the `while True:` command loop; `fuel` bounds the number of commands -/
 def loop (h : Hdr) (convert : Bool) : Nat → St → Prog (List Int)
@@ -207,7 +224,7 @@ def loop (h : Hdr) (convert : Bool) : Nat → St → Prog (List Int)
     else if cmd = FN_BLOCKSIZE then do
       let b ← ulong
       if b = 0 ∨ b > h.bs0 then failWith (.unsupported "block size 0 or larger than allocated")
-      loop h convert f { st with bs := b }
+      else loop h convert f { st with bs := b }
     else if cmd = FN_BITSHIFT then do
       let b ← uvar BITSHIFTSIZE
       loop h convert f { st with shift := b }
@@ -228,15 +245,17 @@ def initSt (h : Hdr) : St :=
 def mainProg (version : Nat) (convert : Bool) (fuel : Nat) : Prog (List Int) := do
   let ftype ← ulong
   if ftype ≥ FTYPE_LIMIT then failWith (.io .badType)
-  let nchan ← ulong
-  let blocksize ← ulong
-  let maxnlpc ← ulong
-  let nmean ← ulong
-  let nskip ← ulong
-  skipBytes nskip
-  if nchan = 0 ∨ blocksize = 0 then failWith (.unsupported "no channels or empty blocks")
-  let h : Hdr := ⟨version, ftype, nchan, blocksize, maxnlpc, nmean⟩
-  loop h convert fuel (initSt h)
+  else do
+    let nchan ← ulong
+    let blocksize ← ulong
+    let maxnlpc ← ulong
+    let nmean ← ulong
+    let nskip ← ulong
+    skipBytes nskip
+    if nchan = 0 ∨ blocksize = 0 then failWith (.unsupported "no channels or empty blocks")
+    else
+      let h : Hdr := ⟨version, ftype, nchan, blocksize, maxnlpc, nmean⟩
+      loop h convert fuel (initSt h)
 
 /-- `version == 1` or `MIN_SUPPORTED_VERSION <= version <= MAX_SUPPORTED_VERSION`, else `raise error`
     (`version` is the signed byte after the magic) -/
